@@ -182,9 +182,32 @@ func (g *GlobalTransactionManager) Rollback(ctx context.Context, gtr *GlobalTran
 		log.Errorf("global rollback answered with a message of another type, xid %s, res %v", gtr.Xid, res)
 		return fmt.Errorf("global rollback of %s answered with a message of another type: %T", gtr.Xid, res)
 	}
-	log.Infof("GlobalRollbackRequest rollback success, xid %s,", gtr.Xid)
 	gtr.TxStatus = resp.GlobalStatus
+	if refusal := rollbackRefusal(resp); refusal != nil {
+		log.Errorf("global rollback not acknowledged, xid %s, error %v", gtr.Xid, refusal)
+		return refusal
+	}
+	log.Infof("GlobalRollbackRequest rollback success, xid %s,", gtr.Xid)
 
+	return nil
+}
+
+// rollbackRefusal tells whether the coordinator's reply to a global rollback is something else than an
+// acknowledgement: the reply says the transaction is being or has been committed, or that the commit or the
+// rollback failed, or its result code is Failed and its status does not say that a rollback is under way or done.
+func rollbackRefusal(resp message.GlobalRollbackResponse) error {
+	switch resp.GlobalStatus {
+	case message.GlobalStatusCommitting, message.GlobalStatusCommitRetrying, message.GlobalStatusAsyncCommitting,
+		message.GlobalStatusCommitted, message.GlobalStatusCommitFailed, message.GlobalStatusRollbackFailed,
+		message.GlobalStatusTimeoutRollbackFailed:
+		return fmt.Errorf("global rollback answered with status %d (not rolled back): %s", resp.GlobalStatus, resp.Msg)
+	case message.GlobalStatusRollbacking, message.GlobalStatusRollbackRetrying, message.GlobalStatusTimeoutRollbacking,
+		message.GlobalStatusTimeoutRollbackRetrying, message.GlobalStatusRollbacked, message.GlobalStatusTimeoutRollbacked:
+		return nil
+	}
+	if resp.ResultCode == message.ResultCodeFailed {
+		return fmt.Errorf("global rollback refused by the coordinator, status %d: %s", resp.GlobalStatus, resp.Msg)
+	}
 	return nil
 }
 
